@@ -3,7 +3,7 @@ proof: Props/C06.v (grid placement: absolute children are never placed, but the 
 model witness, complement proved: nothing changes while every absolute child is `harmless`; engine skeleton: AbsBlind algorithms
 keep trees related up to content size outside out-of-flow subtrees);
 K: grid containers with display:none / absolute children carrying definite lines vs Model/PlacementRun.v (`vh c05 cases`, the C08
-protocol and runner, 30% absolute children) -- the model reproduces the known finding, so K covers it exactly;
+protocol and runner, half of the children absolute) -- the model reproduces the known finding, so K covers it exactly;
 search: metamorphic oracle on FRESH trees through the public API (`vh c06 oracle`): one absolute node neutralised to a bare
 position:absolute leaf, everything outside its subtree compared bit for bit except content_size of its ancestors and order of its
 siblings; mismatches of the known class (known_findings.json C06/grid-estimate-absolute) are KNOWN, anything else a VIOLATION."""
@@ -116,7 +116,8 @@ def run(rep, tier, seed, replay=None):
             if r2 != a:
                 rep.add_violation('grid container: reported placement changes when harmless absolute children are neutralised -- %s' % P.describe(c),
                                   {'case': c, 'impl': a, 'impl_neutralised': r2, 'cmd': 'vh c08 one %s' % ' '.join(str(x) for x in c)})
-    rep.cov['rule'] = ('K: `vh c05 cases` (see C05; seed differs): distinct_nontrivial = distinct cases with a position:absolute child that has a non-auto '
+    rep.cov['rule'] = ('K: `vh c05 cases .. 2`: grid container, explicit 0-4 x 0-4 fixed tracks, 4 auto-flow modes, 1-6 leaf children, half of them position:absolute, these '
+                       'with a placement that is non-auto with p=0.8 per edge (lines -6..6 incl 0, spans 1-4); reported track counts and item areas vs the model; distinct_nontrivial = distinct cases with a position:absolute child that has a non-auto '
                        'placement.  search: `vh c06 oracle`: treegen trees (<= 14 nodes, depth <= 4, flex/grid/block containers, p_absolute 22%, one forced if '
                        'none outside display:none regions), insets / sizes / margins random, the target made loud (definite grid lines, sizes, margins, '
                        'flex grow) with p=1/2; the target is neutralised to Style::DEFAULT + position:absolute without children, both trees laid out from '
